@@ -181,6 +181,9 @@ def encode_sequence(content, error=None, version=None, mode=None, mask=None,
     if len(segments.modes) > 1:
         raise ValueError('This function cannot handle more than one mode (yet). Sorry.')
     mode = segments.modes[0]  # CHANGE iff more than one mode is supported!
+    if mode == consts.MODE_BYTE:
+        # All symbols have to use the encoding which was chosen for the complete message
+        encoding = segments[0].encoding
     # Creating one QR code failed or max_no is not None
     if mode == consts.MODE_NUMERIC or isinstance(content, int):
         content = str(content)
